@@ -13,7 +13,10 @@ def encode_timedelta(obj):
 
 def encode_datetime(obj):
     units, _ = np.datetime_data(obj.dtype)
-    reference = obj[0]
+    # use the first valid element as reference (also for 0-d arrays); fall back to the epoch
+    valid = obj.reshape(-1)
+    valid = valid[~np.isnat(valid)]
+    reference = valid[0] if valid.size > 0 else np.array(0, dtype=obj.dtype)
 
     encoding = {"reference": str(reference), "units": units}
     encoded = (obj - reference).astype("int64").tolist()
